@@ -75,7 +75,7 @@ def run(ck):
     ck.rule("C09.R3", "Layered ordering: inner first for notifications, outer first for vetoes", floor=16)
     ck.rule("C09.R4", "Dispatch::event delivers iff event_enabled", floor=1)
     ck.rule("C09.R0", "wrapper impls discovered", floor=18)
-    ck.rule("C09.R8", "dispatcher registration is announced exactly once: who may call on_register_dispatch", floor=1)
+    ck.rule("C09.R8", "dispatcher registration is announced exactly once: who may call on_register_dispatch (std and no_std)", floor=2)
     ck.rule("C09.R7", "a None layer is transparent for the max-level hint, also after it was swapped in by a reload (as C08.R7)", floor=1)
     ck.rule("C09.R6", "reload::Subscriber takes its lock with a blocking read on every call and forwards under it (as C12.R3)", floor=20)
     ck.rule("C09.R5", "Layered::pick_interest asks the inner value on every path except the outer `never` veto", floor=1)
@@ -93,17 +93,23 @@ def run(ck):
     C08.r7(ck, F, rid="C09.R7")
     # a dispatcher's registration is announced once: by the callsite registry when the Dispatch is created, and by nobody else
     # (wrappers forwarding the same call to their wrapped value excepted)
-    sites = []
-    for x, bb, t in F.callers().get(COLLECT + "::on_register_dispatch", []):
-        fwd = x.trait == COLLECT and x.name == "on_register_dispatch"
-        sites.append((x.path, fwd))
-    origin = sorted(p for p, fwd in sites if not fwd)
-    want = ["tracing_core::callsite::inner::register_dispatch"]
-    if origin == want:
-        ck.ok("C09.R8", "on_register_dispatch originates only in callsite::register_dispatch", detail="%d forwarding sites in wrappers" % sum(1 for p, f in sites if f))
-    else:
-        ck.bad("C09.R8", "on_register_dispatch originates only in callsite::register_dispatch", str(origin),
-               "Collect::on_register_dispatch is invoked (not merely forwarded) from %s: every layer of a stack installed that way is told about the same dispatcher more than once" % origin)
+    for cfgname, FF in (("", F), ("[nostd-core]", Facts("nostd-core"))):
+        if cfgname:
+            ck.configs.append("nostd-core")
+        sites = []
+        for x, bb, t in FF.callers().get(COLLECT + "::on_register_dispatch", []):
+            fwd = x.trait == COLLECT and x.name == "on_register_dispatch"
+            sites.append((x.path, fwd))
+        origin = sorted(p for p, fwd in sites if not fwd)
+        want = ["tracing_core::callsite::inner::register_dispatch"]
+        key = "on_register_dispatch originates exactly in callsite::register_dispatch" + cfgname
+        if origin == want:
+            ck.ok("C09.R8", key, detail="%d forwarding sites in wrappers" % sum(1 for p, f in sites if f))
+        elif not origin:
+            ck.bad("C09.R8", key, "tracing_core::callsite", "in this build configuration nothing ever calls Collect::on_register_dispatch: no collector (and no layer behind one) is told about its Dispatch")
+        else:
+            ck.bad("C09.R8", key, str(origin),
+                   "Collect::on_register_dispatch is invoked (not merely forwarded) from %s: every layer of a stack installed that way is told about the same dispatcher more than once" % origin)
 
 
 RIDS = {"R0": "C09.R0", "R1": "C09.R1", "R2": "C09.R2", "R3": "C09.R3"}
